@@ -303,6 +303,11 @@ def clause_d(repo, chk):
                 if len(srcs) != 1:
                     raise AnalysisError("%s: dict branch has %d iteration sources, one expected" % (key, len(srcs)))
                 it = srcs[0]
+                if isinstance(it, ast.Name):
+                    # keys = sorted(dic.keys()) one statement earlier in the branch
+                    ds = [x.value for st2 in n.body for x in ast.walk(st2) if isinstance(x, ast.Assign) and isinstance(x.targets[0], ast.Name) and x.targets[0].id == it.id]
+                    if len(ds) == 1:
+                        it = ds[0]
                 t = norm_text(it).replace(" ", "")
                 if isinstance(it, ast.Call) and norm_text(it.func) == "sorted" and len(it.args) == 1 and not it.keywords and norm_text(it.args[0]).replace(" ", "") in (arg, arg + ".keys()", arg + ".items()"):
                     return fn, n, "sorted", t
